@@ -137,6 +137,7 @@ class Specs:
         self.sort_key_fn = None
         self.library = {}
         self.ghosts = {}       # (fn qual, statement source text) -> [(ghost name, expression text)]
+        self._inferred = {}    # (class, field) -> type inferred for fields without a shape
 
     # ------------------------------------------------------------ registration API
     def shape(self, cls, _final=False, _opaque=False, **fields):
@@ -228,6 +229,13 @@ class Specs:
                 if t is not None:
                     return t
         t = self.shapes.get(cls, {}).get(name)
+        if t is None and cls in table.classes:
+            # a field without a shape declaration (e.g. introduced by a change of the code): inferred type
+            key = (cls, name)
+            if key not in self._inferred:
+                g = table.infer_field(cls, name)
+                self._inferred[key] = parse_ty(g) if g else None
+            t = self._inferred[key]
         return t
 
     def any_field_type(self, name):
